@@ -216,6 +216,19 @@ def free_running(out, tier, seed):
         prog = {p_: [rng.choice(alpha(rng.choice([KA, KA, KB]))) for _ in range(rng.randint(3, 7))] for p_ in range(1, nproc + 1)}
         init = rng.choice([[], [op('set', k=KA, v=1, ttl=[], tag=0)], [op('set', k=KA, v=F1, ttl=[], tag=0), op('set', k=KB, v=3, ttl=[], tag=0)]])
         jobs.append(({'inherit': rng.randrange(2)}, init, prog, seed * 1000 + i, i + 1))
+    # producers and consumers in processes (C10: every pushed item is delivered exactly once, in order per queue)
+    push = lambda v, p=(): op('push', v=v, p=list(p), back=1, ttl=[], tag=0)
+    pull = lambda p=(): op('pull', p=list(p), back=0, fx=0, ft=0)
+    for i in range(30 if tier == 'quick' else 800):
+        nproc = rng.choice([2, 3, 4])
+        pre = rng.choice([(), (), (97,)])
+        prog = {}
+        for p_ in range(1, nproc + 1):
+            if p_ % 2:
+                prog[p_] = [push(100 * p_ + j if rng.random() < 0.7 else F1, pre) for j in range(rng.randint(2, 4))]
+            else:
+                prog[p_] = [pull(pre) for _ in range(rng.randint(2, 4))]
+        jobs.append(({'inherit': rng.randrange(2)}, rng.choice([[], [push(1, pre), push(2, pre)]]), prog, seed * 1000 + 5000 + i, 5000 + i))
     traces = pmap(_free, jobs, procs=4)
     import harness.common as _c
     old = _c.TRACE_FIELDS
